@@ -1264,8 +1264,9 @@ def _run_allclose(
                 and got_arr.shape[:-1] == expected_arr.shape
                 and got_arr.shape[-1] == 2
             ):
+                # Keep the width the model produced (the comparison below widens
+                # both sides to their common dtype).
                 got_arr = got_arr[..., 0] + 1j * got_arr[..., 1]
-                got_arr = got_arr.astype(expected_arr.dtype, copy=False)
 
         if expected_arr.shape != got_arr.shape:
             return (
@@ -1292,11 +1293,17 @@ def _run_allclose(
             # Only align floating widths; never cast a floating model output to an
             # integer/bool reference dtype (that would truncate 1.9 to 1 and hide
             # the mismatch).
+            expected_cmp = expected_arr
             got_cmp = got_arr
             if _is_floating_dtype(expected_arr) and _is_floating_dtype(got_arr):
-                got_cmp = got_arr.astype(expected_arr.dtype, copy=False)
+                # Compare in the wider of the two widths: narrowing the model output
+                # would turn a finite float64 into inf (or round it onto the
+                # reference) before it is compared.
+                common = np.promote_types(expected_arr.dtype, got_arr.dtype)
+                expected_cmp = expected_arr.astype(common, copy=False)
+                got_cmp = got_arr.astype(common, copy=False)
             if not np.allclose(
-                expected_arr,
+                expected_cmp,
                 got_cmp,
                 rtol=rtol,
                 atol=atol,
